@@ -28,6 +28,32 @@ def bufchan(chan):
     """the channel of a value that sits in serde's buffered `Content` (untagged / flattened / internally tagged members): string
     borrowing is as on the original channel, but sequence and map lengths are known exactly"""
     return chan if '+buf' in chan else chan+'+buf'
+def value_tree(run,v):
+    """what deserialising a document into `serde_json::Value` yields: in every object the LAST of several members with one name
+    survives, members in key order (serde_json::Map = BTreeMap without `preserve_order`); forks on symbolic key bytes"""
+    v=deref(v)
+    if v.vname=='Array': return jarr([value_tree(run,x) for x in deref(v.f[0]).items])
+    if v.vname!='Object': return v
+    def tz(x): return z3.BitVecVal(x,8) if isinstance(x,int) else x
+    def same(a,b):
+        if len(a)!=len(b): return False
+        if all(isinstance(x,int) for x in a+b): return a==b
+        return run.branch_bool(Bool(z3.And(*[tz(x)==tz(y) for x,y in zip(a,b)])),'value.samekey')
+    def lt(a,b):
+        if all(isinstance(x,int) for x in a+b): return bytes(a)<bytes(b)
+        t=z3.BoolVal(len(a)<len(b))
+        for i in reversed(range(min(len(a),len(b)))): t=z3.If(z3.ULT(tz(a[i]),tz(b[i])),True,z3.If(tz(a[i])==tz(b[i]),t,False))
+        return run.branch_bool(Bool(z3.simplify(t)),'value.keyorder')
+    out=[]
+    for k,x in deref(v.f[0]).e:
+        kb=list(deref(k).b); x=value_tree(run,x)
+        hit=[i for i,(k2,_) in enumerate(out) if same(kb,list(deref(k2).b))]
+        if hit: out[hit[0]]=(out[hit[0]][0],x); continue
+        pos=len(out)
+        for i,(k2,_) in enumerate(out):
+            if lt(kb,list(deref(k2).b)): pos=i; break
+        out.insert(pos,(k,x))
+    return jobj(out)
 def mkde(v,chan): return Opaque('ValueDe',{'v':v,'chan':chan})
 def de_parts(e,d):
     """(value, channel) of any deserializer-like object"""
@@ -103,7 +129,7 @@ def de_type(e,run,ty,v,chan):
         for key,val in deref(v.f[0]).e:
             map_insert(run,out,de_type(e,run,kt,jstr(StringO(deref(key).b)),'key:'+chan),de_type(e,run,vt,val,chan))
         return out
-    if ty in ('serde_json::Value','Value') and 'cjson' not in ty: return clone_val(v)
+    if ty in ('serde_json::Value','Value') and 'cjson' not in ty: return value_tree(run,clone_val(v))
     if ty.endswith('IgnoredAny'): return Agg('IgnoredAny',[])
     if re.match(r'^(std::marker::)?PhantomData<',ty): return Agg('PhantomData',[])
     if re.match(r'^(std::boxed::)?Box<',ty): return Ref(Cell(de_type(e,run,generic_args(ty)[0],v,chan)))
